@@ -11,6 +11,7 @@ import SmsVerif.Driver.Receipt
 import SmsVerif.Driver.Validity
 import SmsVerif.Driver.Text
 import SmsVerif.Driver.Batch
+import SmsVerif.Driver.Spec
 open SmsVerif SmsVerif.Driver
 
 def dispatch (line : String) : String :=
@@ -21,6 +22,8 @@ def dispatch (line : String) : String :=
   | "dec" :: toks => (handleDec toks).getD "bad-op"
   | "decalloc" :: toks => (handleDecAlloc toks).getD "bad-op"
   | ["pdus"] => handlePdus
+  | ["specs"] => handleSpecs
+  | "specenc" :: toks => (handleSpecEnc toks).getD "bad-op"
   | "batch" :: toks => (handleBatch toks).getD "bad-op"
   | "text" :: toks => (handleText toks).getD "bad-op"
   | "validity" :: toks => (handleValidity toks).getD "bad-op"
